@@ -65,6 +65,21 @@ def run(ctx):
         # the result tested is handle's
         src_ok = all("pgcat::client::Client::handle" in {o.call.name for o in origins(ep, c.args[0], taint=True) if o.kind == "call"} for c in sites)
         r1.check(src_ok, "is_err-of-handle", "the tested result is the one returned by handle()", "is_err() is applied to something else than handle()'s result")
+    # ... and when the client's task does not get that far - a panic in a decoder of client bytes unwinds through handle() and client_entrypoint -
+    # the one thing that still runs is Drop for Client: it passes ClientStats::disconnect on every way through (cancel-mode objects, which were
+    # never registered, excepted) (D67)
+    dc_ = F.body("<pgcat::client::Client<S, T> as core::ops::drop::Drop>::drop")
+    if dc_ is None:
+        r1.missing("Drop for Client")
+    else:
+        dsw = switches(dc_)
+        cmT, cmF = field_bool_edges(dc_, "cancel_mode", dsw)
+        dcs = [c.block for c in dc_.calls(CS + "disconnect")]
+        retsd = [bb for bb, blk in enumerate(dc_.blocks) if blk["term"]["k"] == "return"]
+        wit = dc_.uncrossed_path([0], retsd, blocks=dcs, edges=set(cmT))
+        r1.check(bool(dcs) and wit is None, "drop=>disconnect", "Drop for Client removes the client's entry from the registry on every way through (except for cancel-mode objects)",
+                 "Drop for Client can finish without ClientStats::disconnect(): a client whose task panics (a `Q` message of length 4 is enough: read_string() indexes buf[..0 - 1]) unwinds past every other place that "
+                 "removes its entry and stays in SHOW CLIENTS / SHOW LISTS for ever - one more entry per attempt", "", wit and dc_.describe_path(wit))
     # registries written only by the Reporter
     for static, ins_fn, rem_fn in (("pgcat::stats::CLIENT_STATS", "pgcat::stats::Reporter::client_register", "pgcat::stats::Reporter::client_disconnecting"),
                                    ("pgcat::stats::SERVER_STATS", "pgcat::stats::Reporter::server_register", "pgcat::stats::Reporter::server_disconnecting")):
